@@ -4,7 +4,7 @@
 # with it and passes without it), then applies it to /repo, runs the quick checks, and reverts.
 set -u
 export GOFLAGS=-mod=mod GOPROXY=off GOSUMDB=off GOTOOLCHAIN=local
-SD=$1; NAME=$2; shift 2
+SD=$(cd "$1" && pwd); NAME=$2; shift 2
 PATCH=$SD/patch.diff
 # rebuild the demonstration module from the committed copies when /tmp/seedkit is gone
 if [ ! -d /tmp/seedkit/kit ]; then
